@@ -45,8 +45,8 @@ no access leaves a buffer (`Outcome.Safe` excludes `oob`). -/
 theorem read_total_wf (memLimit : Nat) (file : Bytes) (rowBeg rowEnd : Int) :
     (∀ {V : Type} (vk : ValKind V), (mmReadSparse true memLimit vk file rowBeg rowEnd).Safe RawCRS.WF) ∧
     (∀ {V : Type} (vk : ValKind V), (mmReadDense true memLimit vk file rowBeg rowEnd).Safe RawDense.WF) ∧
-    (∀ {V : Type} (vsz : Nat) (dec : Bytes → V),
-      (binReadCrs true memLimit vsz dec file rowBeg rowEnd).Safe RawCRS.PtrWF) ∧
+    (∀ {V : Type} (csz : Nat) (cdec : Bytes → Int) (vsz : Nat) (dec : Bytes → V),
+      (binReadCrs true memLimit csz cdec vsz dec file rowBeg rowEnd).Safe RawCRS.PtrWF) ∧
     (∀ {V : Type} (vsz : Nat) (dec : Bytes → V), 0 < vsz →
       (binReadDense true memLimit vsz dec file rowBeg rowEnd).Safe RawDense.WF) ∧
     (binCrsSize file).Safe (fun _ => True) := by
@@ -59,8 +59,8 @@ theorem read_total_wf (memLimit : Nat) (file : Bytes) (rowBeg rowEnd : Int) :
     rcases mmReadDense_error_or_wf memLimit vk file rowBeg rowEnd with h | ⟨A, h, hA⟩ <;> rw [h]
     · trivial
     · exact hA
-  · intro V vsz dec
-    rcases binReadCrs_error_or_wf memLimit vsz dec file rowBeg rowEnd with h | ⟨A, h, hA⟩ <;> rw [h]
+  · intro V csz cdec vsz dec
+    rcases binReadCrs_error_or_wf memLimit csz cdec vsz dec file rowBeg rowEnd with h | ⟨A, h, hA⟩ <;> rw [h]
     · trivial
     · exact hA
   · intro V vsz dec hv
@@ -92,10 +92,11 @@ theorem mm_read_counterexample_repaired : mmReadSparse true 1000000 intKind cexM
 
 /-- **`read_total_wf` is false for `read_crs` as it was** (DESIGN §4 #4): on `cexBin` the row loop calls
 `sort_row` on `[0, 4)` of arrays of length 3 — an out-of-bounds access. -/
-theorem bin_read_oob_counterexample : binReadCrs false 1000000 8 leVal cexBin (-1) (-1) = .oob := by decide
+theorem bin_read_oob_counterexample : binReadCrs false 1000000 8 decS64 8 leVal cexBin (-1) (-1) = .oob := by decide
 
 /-- the repaired reader rejects the same file -/
-theorem bin_read_counterexample_repaired : binReadCrs true 1000000 8 leVal cexBin (-1) (-1) = .error := by decide
+theorem bin_read_counterexample_repaired : binReadCrs true 1000000 8 decS64 8 leVal cexBin (-1) (-1) = .error := by
+  decide
 
 /-- a sparse file that ends before its last announced data line is rejected (any code version, any row range) -/
 theorem mm_truncated_errors {V : Type} (fixed : Bool) (memLimit : Nat) (vk : ValKind V) (file : Bytes)
@@ -181,17 +182,42 @@ example : mmReadSparse true 1000000 intKind
 example : mmReadDense true 1000000 intKind (mmWriteDense intKind ⟨2, 2, [1, -2, 3, 4]⟩) (-1) (-1)
     = .ok ⟨2, 2, [1, -2, 3, 4]⟩ := by decide
 
-/-- **binary round trip (sparse)**: for every value encoding of `vsz` bytes with `dec ∘ enc = id`, reading back the
+/-- **binary round trip (sparse)**: for every column-index encoding of `csz > 0` bytes that round-trips on the
+columns of `A`, and every value encoding of `vsz` bytes with `dec ∘ enc = id` (`csz` and `vsz` independent: `int`
+columns with `double` values, 64-bit columns with `float` or `complex<double>` values, …), reading back the
 `io::write` sequence of `mm2bin` returns the same rows, each passed through `sort_row` (the format stores no column
 count: `ncols` of the result is `0`). -/
+theorem bin_roundtrip_gen {V : Type} (memLimit csz : Nat) (cenc : Int → Bytes) (cdec : Bytes → Int) (vsz : Nat)
+    (enc : V → Bytes) (dec : Bytes → V) (hcsz : 0 < csz) (hcenc : ∀ c, (cenc c).length = csz)
+    (henc : ∀ v, (enc v).length = vsz) (hdec : ∀ v, dec (enc v) = v) (A : CRS V)
+    (hcol : ∀ r ∈ A.rows.toList, ∀ cv ∈ r, cdec (cenc (cv.1 : Int)) = (cv.1 : Int))
+    (hfile : (binWriteCrs cenc enc A).length < two63)
+    (hm1 : (A.nrows + 1) * 8 ≤ memLimit) (hm2 : A.nnz * csz ≤ memLimit) (hm3 : A.nnz * vsz ≤ memLimit) :
+    binReadCrs true memLimit csz cdec vsz dec (binWriteCrs cenc enc A) (-1) (-1)
+      = .ok (RawCRS.ofRows A.nrows 0 ((A.rows.toList.map intRow).map (sortRowN wrap32))) :=
+  binReadCrs_write memLimit csz cenc cdec vsz enc dec hcsz hcenc henc hdec A hcol hfile hm1 hm2 hm3
+
+/-- … with `Col = ptrdiff_t` (8 bytes): every column index below `2^63` -/
 theorem bin_roundtrip {V : Type} (memLimit vsz : Nat) (enc : V → Bytes) (dec : Bytes → V)
     (henc : ∀ v, (enc v).length = vsz) (hdec : ∀ v, dec (enc v) = v) (A : CRS V)
     (hcol : ∀ r ∈ A.rows.toList, ∀ cv ∈ r, cv.1 < 9223372036854775808)
-    (hfile : (binWriteCrs enc A).length < two63)
+    (hfile : (binWriteCrs encS64 enc A).length < two63)
     (hm1 : (A.nrows + 1) * 8 ≤ memLimit) (hm2 : A.nnz * 8 ≤ memLimit) (hm3 : A.nnz * vsz ≤ memLimit) :
-    binReadCrs true memLimit vsz dec (binWriteCrs enc A) (-1) (-1)
+    binReadCrs true memLimit 8 decS64 vsz dec (binWriteCrs encS64 enc A) (-1) (-1)
       = .ok (RawCRS.ofRows A.nrows 0 ((A.rows.toList.map intRow).map (sortRowN wrap32))) :=
-  binReadCrs_write memLimit vsz enc dec henc hdec A hcol hfile hm1 hm2 hm3
+  bin_roundtrip_gen memLimit 8 encS64 decS64 vsz enc dec (by decide) encS64_length henc hdec A
+    (fun r hr cv hcv => decS64_encS64 _ (by omega) (by have := hcol r hr cv hcv; omega)) hfile hm1 hm2 hm3
+
+/-- … with `Col = int` (4 bytes): every column index below `2^31` -/
+theorem bin_roundtrip_int32 {V : Type} (memLimit vsz : Nat) (enc : V → Bytes) (dec : Bytes → V)
+    (henc : ∀ v, (enc v).length = vsz) (hdec : ∀ v, dec (enc v) = v) (A : CRS V)
+    (hcol : ∀ r ∈ A.rows.toList, ∀ cv ∈ r, cv.1 < 2147483648)
+    (hfile : (binWriteCrs encS32 enc A).length < two63)
+    (hm1 : (A.nrows + 1) * 8 ≤ memLimit) (hm2 : A.nnz * 4 ≤ memLimit) (hm3 : A.nnz * vsz ≤ memLimit) :
+    binReadCrs true memLimit 4 decS32 vsz dec (binWriteCrs encS32 enc A) (-1) (-1)
+      = .ok (RawCRS.ofRows A.nrows 0 ((A.rows.toList.map intRow).map (sortRowN wrap32))) :=
+  bin_roundtrip_gen memLimit 4 encS32 decS32 vsz enc dec (by decide) encS32_length henc hdec A
+    (fun r hr cv hcv => decS32_encS32 _ (by omega) (by have := hcol r hr cv hcv; omega)) hfile hm1 hm2 hm3
 
 /-- **binary round trip (dense)** -/
 theorem bin_roundtrip_dense {V : Type} (memLimit vsz : Nat) (hvsz : 0 < vsz) (enc : V → Bytes) (dec : Bytes → V)
@@ -202,8 +228,11 @@ theorem bin_roundtrip_dense {V : Type} (memLimit vsz : Nat) (hvsz : 0 < vsz) (en
   binReadDense_write memLimit vsz hvsz enc dec henc hdec D hD hn hm hfile hmem
 
 -- non-vacuity: 8-byte little-endian words as values
-example : binReadCrs true 1000000 8 leVal (binWriteCrs enc64 ⟨3, #[[(2, 7), (0, 5)], [], [(1, 9)]]⟩) (-1) (-1)
-    = .ok ⟨3, 0, [0, 2, 2, 3], [0, 2, 1], [5, 7, 9]⟩ := by decide
+example : binReadCrs true 1000000 8 decS64 8 leVal (binWriteCrs encS64 enc64 ⟨3, #[[(2, 7), (0, 5)], [], [(1, 9)]]⟩)
+    (-1) (-1) = .ok ⟨3, 0, [0, 2, 2, 3], [0, 2, 1], [5, 7, 9]⟩ := by decide
+-- … and `int` columns (4 bytes) with 8-byte values
+example : binReadCrs true 1000000 4 decS32 8 leVal (binWriteCrs encS32 enc64 ⟨3, #[[(2, 7), (0, 5)], [], [(1, 9)]]⟩)
+    (-1) (-1) = .ok ⟨3, 0, [0, 2, 2, 3], [0, 2, 1], [5, 7, 9]⟩ := by decide
 example : binReadDense true 1000000 8 leVal (binWriteDense enc64 ⟨2, 2, [1, 2, 3, 4]⟩) (1) (2)
     = .ok ⟨1, 2, [3, 4]⟩ := by decide
 
@@ -225,14 +254,16 @@ theorem mm_range_eq_slice_dense {V : Type} (memLimit : Nat) (vk : ValKind V) (fi
       = .ok ⟨e - b, F.ncols, (F.val.drop (b * F.ncols)).take ((e - b) * F.ncols)⟩ :=
   mmReadDense_range_eq_slice memLimit vk file F hF b e hbe hen
 
-/-- … binary CRS (any file shorter than `2^63` bytes, the range of `std::streamoff`) … -/
-theorem bin_range_eq_slice {V : Type} (memLimit vsz : Nat) (dec : Bytes → V) (file : Bytes)
-    (hfile : file.length < two63) (F : RawCRS V)
-    (hF : binReadCrs true memLimit vsz dec file (-1) (-1) = .ok F) :
+/-- … binary CRS (any file shorter than `2^63` bytes, the range of `std::streamoff`), for every size `csz` of a stored
+column index and every size `vsz` of a stored value, equal or not … -/
+theorem bin_range_eq_slice {V : Type} (memLimit csz : Nat) (cdec : Bytes → Int) (vsz : Nat) (dec : Bytes → V)
+    (file : Bytes) (hfile : file.length < two63) (F : RawCRS V)
+    (hF : binReadCrs true memLimit csz cdec vsz dec file (-1) (-1) = .ok F) :
     ∃ R : List (List (Int × V)), R.length = F.nrows ∧ F = RawCRS.ofRows F.nrows 0 R ∧
       ∀ b e : Nat, b ≤ e → e ≤ F.nrows →
-        binReadCrs true memLimit vsz dec file b e = .ok (RawCRS.ofRows (e - b) 0 ((R.drop b).take (e - b))) :=
-  binReadCrs_range_eq_slice memLimit vsz dec file hfile F hF
+        binReadCrs true memLimit csz cdec vsz dec file b e
+          = .ok (RawCRS.ofRows (e - b) 0 ((R.drop b).take (e - b))) :=
+  binReadCrs_range_eq_slice memLimit csz cdec vsz dec file hfile F hF
 
 /-- … binary dense. -/
 theorem bin_range_eq_slice_dense {V : Type} (memLimit vsz : Nat) (hvsz : 0 < vsz) (dec : Bytes → V) (file : Bytes)
@@ -241,6 +272,11 @@ theorem bin_range_eq_slice_dense {V : Type} (memLimit vsz : Nat) (hvsz : 0 < vsz
     binReadDense true memLimit vsz dec file b e
       = .ok ⟨e - b, F.ncols, (F.val.drop (b * F.ncols)).take ((e - b) * F.ncols)⟩ :=
   binReadDense_range_eq_slice memLimit vsz hvsz dec file hfile F hF b e hbe hen
+
+-- non-vacuity: rows [1, 3) of a 3-row binary file with 4-byte columns and 8-byte values (entries in front of the
+-- range, `sizeof(Col) ≠ sizeof(Val)`)
+example : binReadCrs true 1000000 4 decS32 8 leVal (binWriteCrs encS32 enc64 ⟨3, #[[(2, 7), (0, 5)], [], [(1, 9)]]⟩)
+    1 3 = .ok ⟨2, 0, [0, 0, 1], [1], [9]⟩ := by decide
 
 -- non-vacuity: rows [1, 3) of a 3-row file
 example : mmReadSparse true 1000000 intKind
